@@ -14,7 +14,7 @@
    Also: the file-name resolution of ASerializable (container / prefix) on the model and on the real library,
    and the grid exchange formats that can be written and read.
 """
-import json, os, random, itertools, collections
+import json, os, shutil, random, itertools, collections
 import vlib
 from vlib import Check, Broken, log
 
@@ -279,6 +279,15 @@ def judge(ck, cases, obs):
 
 def run(tier):
     ck = Check("C08", "model_checking", tier)
+    try:
+        return _run(ck, tier)
+    except BaseException:
+        if not os.environ.get("VERIF_KEEP"):
+            shutil.rmtree(ck.work, ignore_errors=True)
+        raise
+
+
+def _run(ck, tier):
     vlib.build_lib()
     rng = random.Random(vlib.seed() * 7919 + 17)
     workers = int(os.environ.get("VERIF_TLC_WORKERS", "8"))
